@@ -481,15 +481,19 @@ def pick (z : Zip) (rows : List Row) (loc : Option Name) : List Sig :=
   | none => []
 
 theorem loadLocs_ok (z : Zip) (rows : List Row) (L : List (Option Name))
-    (h : ∀ loc ∈ L, ∃ n l, loc = some n ∧ read z n = some (.sigs l)) :
+    (h : ∀ loc ∈ L, ∃ n l, loc = some n ∧ read z n = some (.sigs l) ∧ l.filter (inManifest rows) ≠ []) :
     loadLocs z rows L = .ok (L.flatMap (pick z rows)) := by
   induction L with
   | nil => rfl
   | cons loc rest ih =>
-    obtain ⟨n, l, hloc, hr⟩ := h loc (by simp)
+    obtain ⟨n, l, hloc, hr, hne⟩ := h loc (by simp)
     have ih' := ih (fun loc' hl => h loc' (by simp [hl]))
     subst hloc
-    simp [loadLocs, hr, ih', pick]
+    have hemp : (l.filter (inManifest rows)).isEmpty = false := by
+      cases hf : l.filter (inManifest rows) with
+      | nil => exact absurd hf hne
+      | cons a t => rfl
+    simp [loadLocs, hr, ih', pick, hemp]
 
 theorem inManifest_placed (placed : Placed) (p : MName × Sig) (hp : p ∈ placed) :
     inManifest (placed.map rowOf) p.2 = true := by
@@ -514,7 +518,7 @@ theorem zipLoad_good_mem (z : Zip) (placed : Placed) (hg : Good z placed) :
     apply loadLocs_ok
     intro loc hl
     obtain ⟨p, hp, e⟩ := hloc loc hl
-    exact ⟨_, _, e, (hg.holds p hp).1⟩
+    exact ⟨_, _, e, (hg.holds p hp).1, by simp [inManifest_placed placed p hp]⟩
   · intro s
     simp only [List.mem_flatMap, List.mem_map]
     constructor
@@ -572,6 +576,6 @@ theorem zipLoad_good_nodup (z : Zip) (placed : Placed) (hg : Good z placed)
   · intro loc hl
     simp only [List.mem_map] at hl
     obtain ⟨p, hp, e⟩ := hl
-    exact ⟨_, _, e.symm, (hg.holds p hp).1⟩
+    exact ⟨_, _, e.symm, (hg.holds p hp).1, by simp [inManifest_placed placed p hp]⟩
 
 end Sm.Storage
